@@ -37,8 +37,12 @@ class PlotWorld(object):
                       order=rng.choice(['asc', 'desc']), aperture_dependent=multi, logd_step=0.2)
         from sedfitter.extinction import Extinction
         law = Extinction()
-        law.wav = np.array([0.3, 0.55, 1.0, 3.0, 10.0, 30.0]) * u.micron
-        law.chi = np.array([9.0, 5.0, 2.0, 0.7, 0.3, 0.1]) * u.cm ** 2 / u.g
+        # the law is tabulated in a seed-chosen representation (the pattern k does not depend on it, C14); results passed as a
+        # FILE carry the law through a pickle
+        wu = [u.micron, u.nm, u.cm, u.angstrom][seed % 4]
+        cu = [u.cm ** 2 / u.g, u.m ** 2 / u.kg][(seed // 4) % 2]
+        law.wav = (np.array([0.3, 0.55, 1.0, 3.0, 10.0, 30.0]) * u.micron).to(wu)
+        law.chi = (np.array([9.0, 5.0, 2.0, 0.7, 0.3, 0.1]) * u.cm ** 2 / u.g).to(cu)
         self.law = law
         self.order = rng.sample(range(3), 3)          # the filters are listed in a seed-chosen order, not by wavelength
         self.filt_w = [FILT_W[i] for i in self.order]
